@@ -20,11 +20,12 @@ Qed.
 
 Definition fields_ok (fs : list (N * N)) : Prop := Forall (fun f => fst f < 2 ^ snd f) fs.
 
+(** the fields from bit [lo] upwards; a field that straddles [lo] is cut *)
 Fixpoint drop (fs : list (N * N)) (lo : N) : option (list (N * N)) :=
   if lo =? 0 then Some fs else
   match fs with
   | [] => None
-  | (v, k) :: r => if k <=? lo then drop r (lo - k) else None
+  | (v, k) :: r => if k <=? lo then drop r (lo - k) else Some ((v / 2 ^ lo, k - lo) :: r)
   end.
 
 Lemma pack_cons_div v k r : v < 2 ^ k -> pack ((v, k) :: r) / 2 ^ k = pack r.
@@ -39,15 +40,25 @@ Proof.
   apply N.mod_small; auto.
 Qed.
 
+Lemma pack_cons_div_in v k r lo :
+  lo < k -> pack ((v, k) :: r) / 2 ^ lo = pack ((v / 2 ^ lo, k - lo) :: r).
+Proof.
+  intros H. cbn [pack]. replace k with (lo + (k - lo)) at 1 by lia.
+  rewrite N.pow_add_r, <- N.mul_assoc, (N.mul_comm (2 ^ lo)), N.div_add by (apply N.pow_nonzero; lia).
+  reflexivity.
+Qed.
+
 Lemma drop_div fs : fields_ok fs -> forall lo fs', drop fs lo = Some fs' -> pack fs / 2 ^ lo = pack fs'.
 Proof.
   induction 1 as [|[v k] r Hv Hr IH]; intros lo fs'.
   - simpl. destruct (N.eqb_spec lo 0); [|discriminate]. intros E; inversion E; subst. reflexivity.
   - cbn [drop]. destruct (N.eqb_spec lo 0).
     + intros E; inversion E; subst. rewrite N.pow_0_r, N.div_1_r. reflexivity.
-    + destruct (N.leb_spec k lo); [|discriminate]. intros E.
-      replace lo with (k + (lo - k)) by lia. rewrite N.pow_add_r, <- N.div_div by (apply N.pow_nonzero; lia).
-      rewrite pack_cons_div by exact Hv. apply IH; auto.
+    + destruct (N.leb_spec k lo).
+      * intros E.
+        replace lo with (k + (lo - k)) by lia. rewrite N.pow_add_r, <- N.div_div by (apply N.pow_nonzero; lia).
+        rewrite pack_cons_div by exact Hv. apply IH; auto.
+      * intros E; inversion E; subst. apply pack_cons_div_in; auto.
 Qed.
 
 Lemma fields_ok_drop fs : fields_ok fs -> forall lo fs', drop fs lo = Some fs' -> fields_ok fs'.
@@ -56,16 +67,33 @@ Proof.
   - simpl. destruct (lo =? 0); [|discriminate]. intros E; inversion E; constructor.
   - cbn [drop]. destruct (lo =? 0).
     + intros E; inversion E; subst. constructor; auto.
-    + destruct (k <=? lo); [|discriminate]. apply IH.
+    + destruct (N.leb_spec k lo); [apply IH|].
+      intros E; inversion E; subst. constructor; auto. cbn [fst snd] in *.
+      apply N.div_lt_upper_bound; [apply N.pow_nonzero; lia|].
+      rewrite <- N.pow_add_r. replace (lo + (k - lo)) with k by lia. exact Hv.
+Qed.
+
+(** bits lo..hi inside the field that starts (or is cut) at lo *)
+Lemma extract_field_sub fs lo hi v k r :
+  fields_ok fs -> drop fs lo = Some ((v, k) :: r) -> (lo <=? hi) && (hi - lo + 1 <=? k) = true ->
+  extract_bits (pack fs) lo hi = v mod 2 ^ (hi - lo + 1).
+Proof.
+  intros Hok Hd Hc. apply andb_true_iff in Hc. destruct Hc as [H1 H2].
+  apply N.leb_le in H1, H2. rewrite extract_bits_spec by lia.
+  rewrite (drop_div fs Hok lo _ Hd). cbn [pack].
+  replace k with ((hi - lo + 1) + (k - (hi - lo + 1))) at 1 by lia.
+  rewrite N.pow_add_r, <- N.mul_assoc, (N.mul_comm (2 ^ (hi - lo + 1))).
+  rewrite N.mod_add by (apply N.pow_nonzero; lia). reflexivity.
 Qed.
 
 Lemma extract_field fs lo hi v k r :
   fields_ok fs -> drop fs lo = Some ((v, k) :: r) -> hi = lo + k - 1 -> 0 < k ->
   extract_bits (pack fs) lo hi = v.
 Proof.
-  intros Hok Hd -> Hk. rewrite extract_bits_spec by lia.
-  rewrite (drop_div fs Hok lo _ Hd). replace (lo + k - 1 - lo + 1) with k by lia.
-  apply pack_cons_mod. pose proof (fields_ok_drop fs Hok lo _ Hd) as H. inversion H; auto.
+  intros Hok Hd -> Hk. rewrite (extract_field_sub fs lo _ v k r Hok Hd).
+  - replace (lo + k - 1 - lo + 1) with k by lia. apply N.mod_small.
+    pose proof (fields_ok_drop fs Hok lo _ Hd) as H. inversion H; auto.
+  - apply andb_true_iff. split; apply N.leb_le; lia.
 Qed.
 
 Lemma pack_bound fs : fields_ok fs -> pack fs < 2 ^ fold_right (fun f a => snd f + a) 0 fs.
@@ -176,4 +204,168 @@ Proof.
     split_ifs_in H; try discriminate;
       split_ifs; reflexivity.
   - unfold get_operand. reflexivity.
+Qed.
+
+Lemma with_count_spec p c : with_count (spec_operand p 0) c = spec_operand p c.
+Proof. destruct p; reflexivity. Qed.
+
+(* ------------------------------------------------------------------ rows *)
+
+Lemma row_ok_spec t r :
+  row_ok t r = true -> lookup t (r_opcode r) = Some r /\ r_fmt r = t /\ In r decode_table.
+Proof.
+  unfold row_ok. intros H. apply andb_true_iff in H. destruct H as [Hf H].
+  apply fmt_eqb_eq in Hf.
+  destruct (lookup t (r_opcode r)) as [r'|] eqn:L; [|discriminate].
+  rewrite !andb_true_iff in H. destruct H as [[[[[[[[H1 H2] H3] H4] H5] H6] H7] H8] H9].
+  apply N.eqb_eq in H1, H3, H4, H5, H6, H7, H8. apply String.eqb_eq in H2. apply fmt_eqb_eq in H9.
+  assert (r' = r) by (destruct r', r; simpl in *; congruence). subst r'.
+  split; [reflexivity|]. split; [assumption|]. apply lookup_some in L. tauto.
+Qed.
+
+(** every opcode fits the opcode field of its format *)
+Definition opcode_range_check : bool :=
+  forallb (fun r => r_opcode r <? 2 ^ (f_ophi (fmt_format (r_fmt r)) - f_oplo (fmt_format (r_fmt r)) + 1)) decode_table.
+Lemma opcode_range_true : opcode_range_check = true.
+Proof. vm_compute. reflexivity. Qed.
+Lemma opcode_range r :
+  In r decode_table ->
+  r_opcode r < 2 ^ (f_ophi (fmt_format (r_fmt r)) - f_oplo (fmt_format (r_fmt r)) + 1).
+Proof.
+  intros H. pose proof opcode_range_true as E. unfold opcode_range_check in E.
+  rewrite forallb_forall in E. apply N.ltb_lt. auto.
+Qed.
+
+(** VOP3: the opcode decides between the a and the b form exactly as the rows are filed *)
+Definition vop3_check : bool :=
+  forallb (fun r => match r_fmt r with
+                    | VOP3a => negb (is_vop3b_opcode (r_opcode r))
+                    | VOP3b => is_vop3b_opcode (r_opcode r) && (255 <? r_opcode r)
+                    | _ => true
+                    end) decode_table.
+Lemma vop3_check_true : vop3_check = true.
+Proof. vm_compute. reflexivity. Qed.
+
+(* ------------------------------------------------------------------ format selection from (format, opcode) *)
+
+(** bit position [a] from which the word is determined by encoding and opcode,
+    and the value of [w / 2^a] (ISA encodings) *)
+Definition top_of (t : fmt) (op : N) : option (N * N) :=
+  match t with
+  | SOP2 => Some (23, 256 + op)
+  | SOPK => Some (23, 352 + op)
+  | SOP1 => Some (23, 381)
+  | SOPC => Some (23, 382)
+  | SOPP => Some (23, 383)
+  | VOP2 => Some (25, op)
+  | VOP1 => Some (25, 63)
+  | VOPC => Some (25, 62)
+  | SMEM => Some (26, 48)
+  | VOP3a | VOP3b => Some (26, 52)
+  | DS => Some (26, 54)
+  | FLAT => Some (26, 55)
+  | _ => None
+  end.
+
+Definition cand_fmt (t : fmt) : fmt := match t with VOP3b => VOP3a | _ => t end.
+
+Definition sel_check : bool :=
+  forallb (fun r =>
+    match top_of (r_fmt r) (r_opcode r) with
+    | Some (a, h) =>
+        (23 <=? a) &&
+        forallb (fun j => match find (candidate (2 ^ 23 * (h * 2 ^ (a - 23) + j))) format_list with
+                          | Some f => format_eqb f (fmt_format (cand_fmt (r_fmt r)))
+                          | None => false
+                          end) (nrange (N.to_nat (2 ^ (a - 23))) 0)
+    | None => true
+    end) decode_table.
+Lemma sel_check_true : sel_check = true.
+Proof. vm_compute. reflexivity. Qed.
+
+Lemma nrange_in k : forall from j, j < N.of_nat k -> In (from + j) (nrange k from).
+Proof.
+  induction k as [|k IH]; intros from j Hj; [lia|]. simpl.
+  destruct (N.eq_dec j 0) as [->|Hn]; [left; lia|]. right.
+  replace (from + j) with (from + 1 + (j - 1)) by lia. apply IH. lia.
+Qed.
+
+Lemma nrange_in0 k j : j < N.of_nat k -> In j (nrange k 0).
+Proof. intros H. pose proof (nrange_in k 0 j H) as H1. rewrite N.add_0_l in H1. exact H1. Qed.
+
+Lemma select_format r w a h :
+  In r decode_table -> top_of (r_fmt r) (r_opcode r) = Some (a, h) -> w / 2 ^ a = h ->
+  find (candidate w) format_list = Some (fmt_format (cand_fmt (r_fmt r))).
+Proof.
+  intros Hin Ht Hw. pose proof sel_check_true as E. unfold sel_check in E.
+  rewrite forallb_forall in E. specialize (E r Hin). rewrite Ht in E.
+  apply andb_true_iff in E. destruct E as [Ha E]. apply N.leb_le in Ha.
+  rewrite forallb_forall in E.
+  set (t := w / 2 ^ 23).
+  assert (Ht2 : t / 2 ^ (a - 23) = h).
+  { unfold t. rewrite N.div_div by (apply N.pow_nonzero; lia). rewrite <- N.pow_add_r.
+    replace (23 + (a - 23)) with a by lia. exact Hw. }
+  pose proof (N.div_mod t (2 ^ (a - 23)) ltac:(apply N.pow_nonzero; lia)) as Hdm.
+  rewrite Ht2 in Hdm.
+  assert (Hj : t mod 2 ^ (a - 23) < 2 ^ (a - 23)) by (apply N.mod_lt, N.pow_nonzero; lia).
+  specialize (E (t mod 2 ^ (a - 23))).
+  rewrite (find_candidate_cut w t eq_refl).
+  rewrite Hdm at 1. rewrite (N.mul_comm (2 ^ (a - 23)) h).
+  destruct (find (candidate (2 ^ 23 * (h * 2 ^ (a - 23) + t mod 2 ^ (a - 23)))) format_list) as [f|].
+  - f_equal. apply format_eqb_eq. apply E. apply nrange_in0. rewrite N2Nat.id. exact Hj.
+  - exfalso. assert (false = true); [|discriminate]. apply E. apply nrange_in0. rewrite N2Nat.id. exact Hj.
+Qed.
+
+Lemma ftype_fmt_format t : f_type (fmt_format t) = t.
+Proof. destruct t; vm_compute; reflexivity. Qed.
+
+Lemma fmt_format_in t : In (fmt_format t) format_table.
+Proof. destruct t; vm_compute; tauto. Qed.
+
+Lemma format_of_fmt_format t : format_of t = Some (fmt_format t).
+Proof. destruct t; vm_compute; reflexivity. Qed.
+
+(** matchFormat on a word whose first candidate is the format of a table row *)
+Lemma match_format_row r w :
+  In r decode_table ->
+  find (candidate w) format_list = Some (fmt_format (cand_fmt (r_fmt r))) ->
+  retrieve_opcode (fmt_format (cand_fmt (r_fmt r))) w = r_opcode r ->
+  match_format format_list w = ROk (fmt_format (r_fmt r)).
+Proof.
+  intros Hin Hf Hop. unfold match_format. rewrite Hf, ftype_fmt_format, Hop.
+  pose proof vop3_check_true as E. unfold vop3_check in E. rewrite forallb_forall in E. specialize (E r Hin).
+  destruct (r_fmt r) eqn:Er; cbn [cand_fmt fmt_eqb andb]; try reflexivity.
+  - apply negb_true_iff in E. rewrite E. reflexivity.
+  - apply andb_true_iff in E. destruct E as [E _]. rewrite E, format_of_fmt_format. reflexivity.
+Qed.
+
+(* ------------------------------------------------------------------ bytes *)
+
+Lemma decode_bytes c w0 tl :
+  w0 < 4294967296 ->
+  decode c (bytes_of_word w0 ++ tl)
+  = to_outcome (decode_core format_list c (4 + N.of_nat (List.length tl)) w0 (le32 tl)).
+Proof.
+  intros H. unfold decode, decode_with. rewrite le32_bytes by exact H.
+  replace (skipn 4 (bytes_of_word w0 ++ tl)) with tl by reflexivity.
+  rewrite app_length. replace (List.length (bytes_of_word w0)) with 4%nat by reflexivity.
+  rewrite Nat2N.inj_add. reflexivity.
+Qed.
+
+(** the preamble of Decode for a word that belongs to table row [r] *)
+Lemma decode_core_row c len w0 w1 r :
+  In r decode_table -> lookup (r_fmt r) (r_opcode r) = Some r ->
+  find (candidate w0) format_list = Some (fmt_format (cand_fmt (r_fmt r))) ->
+  retrieve_opcode (fmt_format (cand_fmt (r_fmt r))) w0 = r_opcode r ->
+  retrieve_opcode (fmt_format (r_fmt r)) w0 = r_opcode r ->
+  f_size (fmt_format (r_fmt r)) <= len -> 4 <= len ->
+  decode_core format_list c len w0 w1
+  = dispatch (r_fmt r) c len w0 w1 (inst0 (fmt_format (r_fmt r)) r).
+Proof.
+  intros Hin Hl Hf Hop1 Hop2 Hs H4. unfold decode_core.
+  destruct (N.ltb_spec len 4); [lia|].
+  rewrite (match_format_row r w0 Hin Hf Hop1). cbn [bind].
+  rewrite ftype_fmt_format, Hop2, Hl. cbn [bind].
+  change (i_size (inst0 (fmt_format (r_fmt r)) r)) with (f_size (fmt_format (r_fmt r))).
+  destruct (N.ltb_spec len (f_size (fmt_format (r_fmt r)))); [lia|]. reflexivity.
 Qed.
